@@ -4,6 +4,7 @@ package main
 // oracles) by C01, C02, C03, C08, C11, C12, C13 and C14.
 
 import (
+	"github.com/sylabs/sif/v2/pkg/sif"
 	"crypto/sha256"
 	"encoding/json"
 	"fmt"
@@ -230,6 +231,29 @@ func runHistory(dir string, seed uint64, spec PropSpec, shipped string) (*Case, 
 		for k := 0; k < n; k++ {
 			emit(&Op{Kind: "cli", Cli: g.cliNext(inspect(e.f))})
 			emit(obsOp())
+			if e.f != nil && r.Chance(1, 14) {
+				// a partial copy of the image: the file ends inside (or at the start of) an object,
+				// which the loader accepts; reading that object through the library fails
+				var cuts []int64
+				var ids []uint32
+				flen := int64(len(e.storeBytes()))
+				e.f.WithDescriptors(func(d sif.Descriptor) bool {
+					if d.Size() > 0 && d.Offset()+d.Size() <= flen {
+						cuts = append(cuts, d.Offset(), d.Offset()+d.Size()/2, d.Offset()+d.Size()-1)
+						ids = append(ids, d.ID())
+					}
+					return false
+				})
+				if len(cuts) > 0 {
+					emit(&Op{Kind: "ftrunc", N: pick(r, cuts)})
+					g.count("cli:file-cut-short")
+					for _, id := range ids {
+						emit(&Op{Kind: "cli", Cli: &CliOp{Cmd: "dump", Arg: fmt.Sprint(id)}})
+					}
+					emit(&Op{Kind: "cli", Cli: &CliOp{Cmd: pick(r, []string{"list", "header", "info"}), Arg: "1"}})
+					return c, vs, g.stats // nothing may be added to a damaged image in these histories
+				}
+			}
 		}
 		return c, vs, g.stats
 	}
